@@ -16,6 +16,8 @@ pub mod path;
 mod sector;
 mod stream;
 mod stream_buffer;
+#[cfg(cfb_verif)]
+pub mod sync;
 mod timestamp;
 mod validate;
 mod version;
@@ -34,5 +36,7 @@ pub use self::sector::{Sector, SectorInit, Sectors};
 pub use self::stream::Stream;
 pub(crate) use self::stream_buffer::DEFAULT_STREAM_MAX_BUFFER_SIZE;
 pub use self::timestamp::Timestamp;
+#[cfg(cfb_verif)]
+pub use self::timestamp::verif_clock_set;
 pub use self::validate::Validation;
 pub use self::version::Version;
